@@ -9,6 +9,7 @@ import props_path
 import props_file
 import props_pool
 import props_thread
+import props_concrouter
 SPECS = {
     "C01": props_resource.C01,
     "C02": props_resource.C02,
@@ -28,6 +29,7 @@ SPECS = {
     "C07": props_pool.C07,
     "C08": props_pool.C08,
     "C20": props_thread.C20,
+    "C11": props_concrouter.C11,
 }
 # specs that can be run (./check) but are not claimed in MANIFEST.json yet
 IN_PROGRESS = set()
